@@ -33,6 +33,11 @@ Schedule(id, cron, promiseId, ikey, ptags) ==
 ReadS(id) == [kind |-> "ReadSchedule", a |-> [id |-> id]]
 DeleteS(id) == [kind |-> "DeleteSchedule", a |-> [id |-> id]]
 
+Search(qc, states, limit) == [kind |-> "SearchPromises", a |-> [qc |-> qc, states |-> states, tags |-> NoTags, limit |-> limit, cursor |-> None]]
+SearchS(qc, limit) == [kind |-> "SearchSchedules", a |-> [qc |-> qc, tags |-> NoTags, limit |-> limit, cursor |-> None]]
+\* ids used by the search scenario, as character sequences
+MCIdc == ("pc" :> <<"p", "c">>) @@ ("pa" :> <<"p", "a">>) @@ ("pb" :> <<"p", "b">>) @@ ("q" :> <<"q">>) @@ ("s" :> <<"s">>)
+
 RECURSIVE Build(_, _)
 \* (a setup step "Dispatch" is a dispatch cycle at instant 1 whose hand-off succeeds)
 SetupStep(S, r) == IF r.kind = "Dispatch" THEN Dispatch(S, r.a.task, "ok", Delay, 1) ELSE Op(r.kind, S, r.a, 1).db
@@ -122,6 +127,14 @@ Setup_starve == << Create("a", 5000, None, FALSE, Routed1), Create("p", 5000, No
 DB_starve == Build(EmptyDB, Setup_starve)
 Script_starve == << Read("a"), Read("b") >>
 Times_starve == {2}
+
+\* --- search: a search meets promises at their deadline (it times the late ones out itself, in child
+\*     coroutines, and searches again) while a completion and the time-out sweep do the same
+Setup_search == << Create("pa", 5, None, FALSE, NoTags), Create("pb", 9, None, FALSE, NoTags), Create("q", 5, None, FALSE, NoTags) >>
+DB_search == Build(EmptyDB, Setup_search)
+Script_search == << Search(<<"p", "*">>, <<PENDING, RESOLVED, REJECTED, TIMEDOUT, CANCELED>>, 2), Search(<<"*">>, <<PENDING>>, 1),
+                    CompleteP("pa", RESOLVED, None, FALSE), Create("pc", 9, None, FALSE, NoTags) >>
+Times_search == {4, 5}
 
 \* --- create: creations of a routed promise (with and without a task) race with each other and with its completion
 Setup_create == <<>>
